@@ -52,7 +52,7 @@ struct ArrayMirror {
 };
 
 static int p_h7, p_after_unlock, p_handoff_in_op, p_moved, p_moved_during_index, p_autogrow, p_grow_refused, p_neg,
-	p_big, p_erange, p_either, p_cb, p_zero, p_reread_growth, p_reread_foreign, p_shared_idx, p_gate_wait, p_ptr_check,
+	p_big, p_erange, p_either, p_cb, p_zero, p_reread_growth, p_reread_foreign, p_shared_idx, p_gate_wait, p_ptr_check, p_enomem_grow, p_enomem_index,
 	p_grow_moving, p_grow_noop, p_bin_edge, s_tasks[MAXT + 1], s_final_checked;
 
 static void init(const char *)
@@ -74,6 +74,8 @@ static void init(const char *)
 	p_reread_foreign = counter_id("probe", "pattern_reread_by_other_task");
 	p_shared_idx = counter_id("probe", "same_index_obtained_by_two_tasks");
 	p_gate_wait = counter_id("probe", "avoid_gate_waited");
+	p_enomem_grow = counter_id("probe", "grow_failed_on_injected_allocation_failure");
+	p_enomem_index = counter_id("probe", "index_failed_on_injected_allocation_failure");
 	p_ptr_check = counter_id("probe", "saved_pointer_checked_without_index_call");
 	p_grow_moving = counter_id("probe", "grow_extended_bin_table");
 	p_grow_noop = counter_id("probe", "grow_to_smaller_or_equal_size");
@@ -251,6 +253,12 @@ static void gate_leave(int cls)
 	if (cls == GC_PLAIN) G.in_plain--; else if (cls == GC_G) G.in_g--; else G.in_mi--;
 }
 
+// ------------------------------------------------------------------ injected allocation failures
+// A call during which an allocation was made to fail may return -ENOMEM and must then have changed nothing that matters:
+// every address handed out before stays valid, every element keeps its contents, later calls work.
+static uint64_t g_alloc_failed[MAXT];
+static void on_fault(int kind) { if (kind == F_ALLOC_ENOMEM && cur_task() >= 0 && cur_task() < MAXT) g_alloc_failed[cur_task()]++; }
+
 // ------------------------------------------------------------------ oracle pieces
 static void check_contents(int me, int32_t idx, Elem &e, const uint8_t *addr, const char *how)
 {
@@ -342,8 +350,10 @@ static void do_index(int me, const Op &op)
 	G.may_autogrow[me] = valid && auto_on && (size_t)idx >= lo0;
 	ev(200, me, idx, want_write);
 	void *out = (void *)(uintptr_t)1;
+	uint64_t af0 = g_alloc_failed[me];
 	int32_t rc = qb_array_index(G.arr, idx, &out);
 	G.in_index[me] = false;
+	bool enomem = rc == -ENOMEM && g_alloc_failed[me] != af0;
 	if (G.nunlock[me] >= 1 && G.nunlock[me] < MAXU) {
 		// only what happened after the call's last unlock was outside the lock for certain
 		count(p_after_unlock, G.ev_after[me][G.nunlock[me]]);
@@ -353,6 +363,7 @@ static void do_index(int me, const Op &op)
 	ev(201, me, rc);
 	fp_mix(mix64(((uint64_t)(uint32_t)idx << 20) ^ ((uint64_t)(uint32_t)rc << 4) ^ (uint64_t)me));
 	size_t hi1 = G.size_hi;
+	if (enomem && valid) { count(p_enomem_index); return; }      // a legitimately failed call: no address, no growth recorded
 	if (idx < 0) {
 		if (rc != -ERANGE)
 			fail("negative-index-not-range-error", "qb_array_index", "index %d returned %d, expected -ERANGE (%d)", idx, rc, -ERANGE);
@@ -399,6 +410,7 @@ static void do_grow(int me, const Op &op)
 	if (valid && n > G.size_hi) G.size_hi = n;
 	G.in_grow[me] = true;
 	ev(202, me, (int64_t)n);
+	uint64_t af0 = g_alloc_failed[me];
 	int32_t rc = qb_array_grow(G.arr, n);
 	G.in_grow[me] = false;
 	if (gated) gate_leave(GC_G);
@@ -410,6 +422,7 @@ static void do_grow(int me, const Op &op)
 		count(p_grow_refused);
 		return;
 	}
+	if (rc == -ENOMEM && g_alloc_failed[me] != af0) { count(p_enomem_grow); return; }     // failed for want of memory: nothing grew
 	if (rc != 0)
 		fail("grow-failed", "qb_array_grow", "grow to %zu elements returned %d (size was at least %zu)", n, rc, lo0);
 	if (n <= lo0) count(p_grow_noop);
@@ -496,6 +509,8 @@ static void gen(const char *, RunSpec &spec)
 	p.set("cb", r.chance(1, 2));
 	p.set("moves", r.chance(7, 8));
 	p.set("gate", avoid_has(AVOID_TOKEN) ? 1 : 0);
+	// a fifth of the runs meet allocation failures inside index / grow calls
+	p.set("rate_alloc", r.chance(1, 5) ? (int64_t)r.range(1500, 14000) : 0);
 
 	int nops = r.chance(1, 2) ? (int)r.range(2, 24) : (int)r.range(24, 90);
 	if (elsize >= 4096 && nops > 50) nops = 50;
@@ -578,6 +593,9 @@ static void run(const char *, const RunSpec &spec)
 	count(s_tasks[G.ntasks]);
 	shim_reset();
 	shim_cfg().realloc_always_moves = p.get("moves", 1) ? 1 : 0;
+	v = p.get("rate_alloc", 0);
+	shim_cfg().rate_alloc = v < 0 ? 0 : v > 30000 ? 30000 : (uint32_t)v;
+	memset(g_alloc_failed, 0, sizeof g_alloc_failed);
 	errno = 0;
 	G.arr = qb_array_create_2(init, G.elsize, G.autogrow);
 	if (!G.arr) {
@@ -613,6 +631,7 @@ static void run(const char *, const RunSpec &spec)
 	refresh_regions(false);
 	g_access_hook = hook;
 	shim_hooks().on_call = on_call;
+	shim_hooks().on_fault = on_fault;
 	static const char *const names[MAXT] = { "t0", "t1", "t2", "t3" };
 	for (int t = 0; t < G.ntasks; t++) task_create(1, task_main, (void *)(long)t, names[t]);
 	sched_run();
